@@ -51,6 +51,19 @@ func schemaFor(i int, r *core.Rand) []model.Col {
 		}
 		cols = append(cols, c)
 	}
+	if r.Chance(1, 4) {
+		// column names are case-sensitive: a later column of the same type as
+		// an earlier one is named like it in capitals (c0 / C0); statements
+		// that name columns (column lists, SET) then have to hit the right one
+		for k := 1; k < len(cols); k++ {
+			for j := 0; j < k; j++ {
+				if cols[j].Type == cols[k].Type && cols[j].Name == strings.ToLower(cols[j].Name) {
+					cols[k].Name = strings.ToUpper(cols[j].Name)
+					return cols
+				}
+			}
+		}
+	}
 	return cols
 }
 
